@@ -1,7 +1,9 @@
 (* C06  Pre-release gating and filter() follow the PEP 440 policy.
    Model: SpecContains (Specifier.prereleases / contains), SetsModel (SpecifierSet.prereleases / contains(installed) / filter,
-   Specifier.filter as the generator is written: kw, yielded flag, found_prereleases list; the empty-set branch; the objects with
-   their mutable override as a state machine).  Items carry their position in the input list, which stands for object identity:
+   Specifier.filter as the generator is written: kw, yielded flag, found_prereleases list; SpecifierSet.filter as the single pass over
+   the items it is since /repo 70278f0 (SetsModel.one_pass), proved equal to the former chain of member filters; the empty-set branch;
+   the objects with their mutable override as a state machine).  The model has no digit limit for numbers (the code rejects numbers
+   beyond the interpreter's 4300-digit conversion limit with InvalidVersion since 71d4b23, finding D10): nothing here speaks about such inputs.  Items carry their position in the input list, which stands for object identity:
    a filter result is a sub-list of the input items, so "the very objects, in input order" is what `filter _ xs` says.
    Premises: wf_member / wf_set (no operator method raises) - they hold for everything the constructors accept (C05_wf_specifier,
    C05_wf_set in Properties/C05.v, through SpecLink.compare_op_total); the *_text corollaries below have no such premise.
@@ -137,16 +139,29 @@ Theorem C06_history x ops ops' o : latest ops (obj_override x) = latest ops' (ob
 Proof. exact (history_outputs x ops ops' o). Qed.
 Print Assumptions C06_history.
 
-(* 10. the order in which the member filters are chained is irrelevant *)
+(* 10. the order of the members (iteration order of the frozenset) is irrelevant for the single-pass filter: set_filter_v runs
+       SetsModel.one_pass, `item for item in iterable if all(spec.contains(item, prereleases=allow) for spec in specs)`.
+       (The name dates from the chain of member filters the code had before 70278f0; C20.v refers to it.) *)
 Theorem C06_chain_order_irrelevant S S' arg xs : Permutation (ms S) (ms S') -> ov S = ov S' -> wf_set S -> wf_items xs ->
   set_filter_v S arg xs = set_filter_v S' arg xs.
 Proof. exact (set_filter_order_irrelevant S S' arg xs). Qed.
 Print Assumptions C06_chain_order_irrelevant.
+Theorem C06_member_order_irrelevant S S' arg xs : Permutation (ms S) (ms S') -> ov S = ov S' -> wf_set S -> wf_items xs ->
+  set_filter_v S arg xs = set_filter_v S' arg xs.
+Proof. exact (set_filter_order_irrelevant S S' arg xs). Qed.
+Print Assumptions C06_member_order_irrelevant.
+(* the single pass of the code and the chain of member filters it replaced are the same function - for ALL members, with no wf premise
+   (so also where a member's operator raises) *)
+Theorem C06_filter_is_one_pass b l xs : chain_filter b l xs = one_pass b l xs.
+Proof. exact (chain_is_one_pass b l xs). Qed.
+Print Assumptions C06_filter_is_one_pass.
 
 (* ================================================================ second round (audit of C06) *)
 
-(* 3'. contains() depends on (override, argument) only through the effective setting; so enabling pre-releases by ANY means - the call
-       argument, the constructor override, a later assignment - never removes a match *)
+(* 3'. contains() depends on (override, argument) only through the effective setting (the two *_only_effective statements are a case split
+       of the definitions); so enabling pre-releases by the call argument, the constructor override or a later assignment never removes a match.
+       For a set, S' may differ from S in the set's override AND in the members' own overrides (the fourth layer): only the member
+       specifiers must be the same. *)
 Theorem C06_contains_only_effective sp o arg item : contains sp o arg item = contains sp None (Some (spec_effective sp o arg)) item.
 Proof. exact (contains_only_effective sp o arg item). Qed.
 Print Assumptions C06_contains_only_effective.
@@ -158,8 +173,8 @@ Theorem C06_set_contains_only_effective S arg inst item :
   set_contains S arg inst item = set_contains S (Some (set_effective S arg)) inst item.
 Proof. exact (set_contains_only_effective S arg inst item). Qed.
 Print Assumptions C06_set_contains_only_effective.
-(* S' : the same members under any other override of the set *)
-Theorem C06_set_enable_monotone_general S S' arg arg' inst item : ms S = ms S' -> set_effective S' arg' = true ->
+(* S' : the same member specifiers under any other overrides of the set and of the members *)
+Theorem C06_set_enable_monotone_general S S' arg arg' inst item : map m_sp (ms S) = map m_sp (ms S') -> set_effective S' arg' = true ->
   set_contains S arg inst item = Ans true -> set_contains S' arg' inst item = Ans true.
 Proof. exact (set_enable_monotone_general S S' arg arg' inst item). Qed.
 Print Assumptions C06_set_enable_monotone_general.
@@ -249,13 +264,26 @@ Print Assumptions C06_fallback_emptyset_text.
 (* 9'. histories over objects WITH IDENTITY (SetsWorld; the s.world command runs wstep): Specifier objects live in a heap, sets hold
        references, a & b holds the operands' member objects.  After any history of constructions, &, assignments to a set, assignments to
        a member object (through any alias) and reads: every pre-existing object is unchanged except that its override is its latest
-       assignment (frame: assigning one object never touches another; membership and _spec never change; reads write nothing) ... *)
+       assignment (frame: assigning one object never touches another; membership and _spec never change).
+       C06_world_history is the frame of a functional list update and C06_world_reads_do_not_write holds by the way wstep is written:
+       both are definitional for the MODEL; that the real contains / filter / .prereleases write nothing rests on the s.world correspondence
+       stream.  The theorem with content is C06_world_and_shares_members (with C06_world_set_shares_members): sharing through & .
+       An op `WRead i (OpSet p)` is the assignment WSetOv i p (C06_world_opset_is_assignment), not a read. *)
 Theorem C06_world_history ops w : frame w (wrun w ops) ops.
 Proof. exact (world_history ops w). Qed.
 Print Assumptions C06_world_history.
-Theorem C06_world_reads_do_not_write w i a o : fst (wstep w (WRead i o)) = w /\ fst (wstep w (WReadCell a o)) = w.
+Theorem C06_world_reads_do_not_write w i a o : is_read o = true -> fst (wstep w (WRead i o)) = w /\ fst (wstep w (WReadCell a o)) = w.
 Proof. exact (reads_do_not_write w i a o). Qed.
 Print Assumptions C06_world_reads_do_not_write.
+Theorem C06_world_opset_is_assignment w i a p :
+  wstep w (WRead i (OpSet p)) = wstep w (WSetOv i p) /\ wstep w (WReadCell a (OpSet p)) = wstep w (WCellOv a p).
+Proof. exact (read_opset_is_assignment w i a p). Qed.
+Print Assumptions C06_world_opset_is_assignment.
+(* the premise wf_world of the theorems below holds for every world reached from the empty one by a well-addressed program
+   (wf_ops: every address / index mentioned by a construction exists - what s.world programs are) *)
+Theorem C06_world_wf_from_empty ops : wf_ops empty_world ops -> wf_world (wrun empty_world ops).
+Proof. exact (wf_world_from_empty ops). Qed.
+Print Assumptions C06_world_wf_from_empty.
 (* ... so what a set answers is what SetsModel answers for its members under their latest overrides and its own latest override ... *)
 Theorem C06_world_resolve ops w i : wf_world w -> (i < length (sets w))%nat ->
   resolve (wrun w ops) i =
